@@ -539,8 +539,9 @@ func (fr *Frame) exec(in ssa.Instruction) {
 		return
 	case *ssa.MakeChan:
 		ch := fr.allocRef()
-		s := ex.get(fr.st, "CH.sent", SArr(SInt, SInt))
-		ex.set(fr.st, "CH.sent", SArr(SInt, SInt), mkStore(s, ch, "0"))
+		sk := chSentKey(in.Type())
+		s := ex.get(fr.st, sk, SArr(SInt, SInt))
+		ex.set(fr.st, sk, SArr(SInt, SInt), mkStore(s, ch, "0"))
 		c := ex.get(fr.st, "CH.cap", SArr(SInt, SInt))
 		ex.set(fr.st, "CH.cap", SArr(SInt, SInt), mkStore(c, ch, fr.val(in.Size).T))
 		fr.vals[in] = vInt(ch)
@@ -855,24 +856,19 @@ func (fr *Frame) nextInstr(in *ssa.Next) {
 	fr.vals[in] = Val{K: VTuple, Fs: []Val{vBool(ok), kv, v}}
 }
 
-func (fr *Frame) chanSend(ch Val, v Val, cond string) {
-	fr.chanSendT(ch, v, cond, nil)
+// chSentKey: the send counter of channels is kept per element type (channels of
+// different element types never alias).
+func chSentKey(chanT types.Type) string {
+	return "CH.sent." + typeKey(chanT.Underlying().(*types.Chan).Elem())
 }
 
 // chanSendT records a send: the per-channel counter and the last value sent
 // (all leaves, keyed by the element type).
 func (fr *Frame) chanSendT(ch Val, v Val, cond string, et types.Type) {
 	ex := fr.ex
-	s := ex.get(fr.st, "CH.sent", SArr(SInt, SInt))
-	ex.set(fr.st, "CH.sent", SArr(SInt, SInt), mkIte(cond, mkStore(s, ch.T, mkApp("+", mkSelect(s, ch.T), "1")), s))
-	if v.K == VBool || v.K == VInt {
-		t := v.T
-		if v.K == VBool {
-			t = mkIte(v.T, "1", "0")
-		}
-		l := ex.get(fr.st, "CH.last", SArr(SInt, SInt))
-		ex.set(fr.st, "CH.last", SArr(SInt, SInt), mkIte(cond, mkStore(l, ch.T, t), l))
-	}
+	sk := "CH.sent." + typeKey(et)
+	s := ex.get(fr.st, sk, SArr(SInt, SInt))
+	ex.set(fr.st, sk, SArr(SInt, SInt), mkIte(cond, mkStore(s, ch.T, mkApp("+", mkSelect(s, ch.T), "1")), s))
 	if et != nil {
 		ls := leavesOf(et)
 		ts := flatten(v)
